@@ -69,6 +69,7 @@ func (p *ProjectRunner) init() {
 	// the API may be served before Run() is called
 	p.runningProcesses = make(map[string]*Process)
 	p.doneProcesses = make(map[string]*Process)
+	p.logger = pclog.NewNilLogger()
 }
 
 func (p *ProjectRunner) Run() error {
@@ -97,7 +98,9 @@ func (p *ProjectRunner) Run() error {
 	for _, v := range runOrder {
 		nameOrder = append(nameOrder, v.ReplicaName)
 	}
-	p.logger = pclog.NewNilLogger()
+	if p.logger == nil {
+		p.logger = pclog.NewNilLogger()
+	}
 	if isStringDefined(p.project.LogLocation) {
 		p.logger = pclog.NewLogger()
 		p.logger.Open(p.project.LogLocation, p.project.LoggerConfig)
